@@ -8,7 +8,8 @@
    functions; no theorem says that dclab's KDE equals a reference estimator -
    that part is differential testing in harness/c12.py. *)
 From Coq Require Import ZArith List Bool.
-From Verif Require Import Model.C12 Proofs.C12.
+From Verif Require Import Model.C12 Proofs.C12 Gen.StatMethods
+     Proofs.C12_inventory.
 Import ListNotations.
 Open Scope Z_scope.
 
@@ -412,3 +413,12 @@ Theorem C12_multivariate_positions_vstack_partial :
     mv_points_vstack xo yo = Some (point_rows xo yo).
 Proof. exact mv_points_vstack_partial. Qed.
 Print Assumptions C12_multivariate_positions_vstack_partial.
+
+(* ---- statistics method inventory (generated from the tree under test) ------ *)
+
+(* the methods registered in Statistics.available_methods (name, req_feature,
+   registration order) are exactly those the model and the harness cover *)
+Theorem C12_statistics_method_inventory :
+  list_eqb meth_eqb gen_stat_methods model_stat_methods = true.
+Proof. exact stat_inventory_matches. Qed.
+Print Assumptions C12_statistics_method_inventory.
